@@ -491,6 +491,8 @@ class State:
                 keep_bases.add(b)
         # locals reachable from escaped ones are escaped too
         esc = self.reachable_bases(self.escaped) if self.escaped else set()
+        # once reachable from an escaped local, always escaped: the link itself is forgotten by this kill
+        self.escaped |= {b for b in esc if b[0] == "alloca" or b in self.locals}
         for k in [k for k in self.store if not (k[0] in keep_bases and k[0] not in esc)]:
             del self.store[k]
             self.stype.pop(k, None)
